@@ -19,10 +19,11 @@ CONSTANTS Dpd, Life,          \* configured DPD interval and IKE_SA lifetime (sc
           Horizon,            \* elapsed-time counters are clipped here
           SingleSweep,        \* TRUE: exactly one sweep per clock step (the "uniform tick" schedule class of C13)
           MaxBusy,            \* how often the peer may refuse the IKE_SA rekey with TEMPORARY_FAILURE
-          MaxProbes           \* how many requests of its own (liveness probes) the peer may send to this IKE_SA
+          MaxProbes,          \* how many requests of its own (liveness probes) the peer may send to this IKE_SA
+          MaxNoise            \* how many unauthenticated datagrams with this IKE_SA's SPIs arrive
 
-VARIABLES st, kind, retx, sinceFirst, sinceSend, gaps, dpdIn, rekeyIn, deleteIn, kern, wire, crashed, sinceCrash, lost, swept, busy, probes, last
-vars == <<st, kind, retx, sinceFirst, sinceSend, gaps, dpdIn, rekeyIn, deleteIn, kern, wire, crashed, sinceCrash, lost, swept, busy, probes, last>>
+VARIABLES st, kind, retx, sinceFirst, sinceSend, gaps, dpdIn, rekeyIn, deleteIn, kern, wire, crashed, sinceCrash, lost, swept, busy, probes, noise, last
+vars == <<st, kind, retx, sinceFirst, sinceSend, gaps, dpdIn, rekeyIn, deleteIn, kern, wire, crashed, sinceCrash, lost, swept, busy, probes, noise, last>>
 
 Clip(x) == IF x < -1 THEN -1 ELSE x
 Cap(x) == IF x > Horizon THEN Horizon ELSE x
@@ -43,7 +44,7 @@ Init ==
        /\ kern = (k \notin HalfOpenKinds)
   /\ sinceFirst = 0 /\ sinceSend = 0 /\ gaps = <<>>
   /\ dpdIn = Dpd /\ rekeyIn = Life /\ deleteIn = Life + 30
-  /\ crashed = FALSE /\ sinceCrash = 0 /\ lost = 0 /\ swept = TRUE /\ busy = 0 /\ probes = 0
+  /\ crashed = FALSE /\ sinceCrash = 0 /\ lost = 0 /\ swept = TRUE /\ busy = 0 /\ probes = 0 /\ noise = 0
   /\ last = [a |-> "Init"]
 
 \* IkeSa._send_request: a new request (re)starts the retransmission schedule
@@ -66,7 +67,7 @@ Sweep ==
      ELSE IF st = "ESTABLISHED" /\ deleteIn < 0 THEN SendNew("delike") /\ UNCHANGED kern /\ last' = [a |-> "Sweep", sent |-> 1, what |-> "delike"]
      ELSE IF st = "ESTABLISHED" /\ rekeyIn < 0 THEN SendNew("rekeyike") /\ UNCHANGED kern /\ last' = [a |-> "Sweep", sent |-> 1, what |-> "rekeyike"]
      ELSE UNCHANGED <<st, kind, retx, sinceFirst, sinceSend, gaps, wire, kern>> /\ last' = [a |-> "Sweep", sent |-> 0, what |-> "nothing"]
-  /\ UNCHANGED <<dpdIn, rekeyIn, deleteIn, crashed, sinceCrash, lost, busy, probes>>
+  /\ UNCHANGED <<dpdIn, rekeyIn, deleteIn, crashed, sinceCrash, lost, busy, probes, noise>>
 
 \* the clock advances (at least one sweep between two ticks: select() returns at least once per second)
 Tick(dt) ==
@@ -74,7 +75,7 @@ Tick(dt) ==
   /\ sinceFirst' = Cap(sinceFirst + dt) /\ sinceSend' = Cap(sinceSend + dt)
   /\ dpdIn' = Clip(dpdIn - dt) /\ rekeyIn' = Clip(rekeyIn - dt) /\ deleteIn' = Clip(deleteIn - dt)
   /\ sinceCrash' = IF crashed THEN Cap(sinceCrash + dt) ELSE 0
-  /\ UNCHANGED <<st, kind, retx, gaps, kern, wire, crashed, lost, busy, probes>>
+  /\ UNCHANGED <<st, kind, retx, gaps, kern, wire, crashed, lost, busy, probes, noise>>
   /\ last' = [a |-> "Tick", dt |-> dt]
 
 \* the peer answers the request (any copy): the exchange completes, the liveness timer restarts (authentic reception)
@@ -83,7 +84,7 @@ Answer ==
   /\ wire' = 0 /\ dpdIn' = Dpd
   /\ st' = IF kind = "delike" THEN "DELETED" ELSE "ESTABLISHED"
   /\ kern' = IF kind \in {"delike", "delchild"} THEN FALSE ELSE kern        \* the only CHILD_SA / the whole IKE_SA is gone
-  /\ UNCHANGED <<kind, retx, sinceFirst, sinceSend, gaps, rekeyIn, deleteIn, crashed, sinceCrash, lost, swept, busy, probes>>
+  /\ UNCHANGED <<kind, retx, sinceFirst, sinceSend, gaps, rekeyIn, deleteIn, crashed, sinceCrash, lost, swept, busy, probes, noise>>
   /\ last' = [a |-> "Answer"]
 
 \* the peer is busy with an exchange of its own and refuses our IKE_SA rekey with TEMPORARY_FAILURE (RFC 7296 2.25): the exchange is over, the rekey is
@@ -91,7 +92,7 @@ Answer ==
 AnswerBusy ==
   /\ wire > 0 /\ ~crashed /\ st = "WAITING" /\ kind = "rekeyike" /\ busy < MaxBusy
   /\ wire' = 0 /\ dpdIn' = Dpd /\ st' = "ESTABLISHED" /\ rekeyIn' = 0 /\ busy' = busy + 1
-  /\ UNCHANGED <<kind, retx, sinceFirst, sinceSend, gaps, deleteIn, kern, crashed, sinceCrash, lost, swept, probes>>
+  /\ UNCHANGED <<kind, retx, sinceFirst, sinceSend, gaps, deleteIn, kern, crashed, sinceCrash, lost, swept, probes, noise>>
   /\ last' = [a |-> "AnswerBusy"]
 
 \* the peer sends a request of its own (a liveness probe) - also while we wait for an answer that got lost on the way to it.  Authentic reception
@@ -99,22 +100,30 @@ AnswerBusy ==
 PeerProbe ==
   /\ ~crashed /\ busy = 0 /\ probes < MaxProbes /\ kern /\ st \in {"WAITING", "ESTABLISHED"} /\ kind \notin HalfOpenKinds
   /\ dpdIn' = Dpd /\ probes' = probes + 1
-  /\ UNCHANGED <<st, kind, retx, sinceFirst, sinceSend, gaps, rekeyIn, deleteIn, kern, wire, crashed, sinceCrash, lost, swept, busy>>
+  /\ UNCHANGED <<st, kind, retx, sinceFirst, sinceSend, gaps, rekeyIn, deleteIn, kern, wire, crashed, sinceCrash, lost, swept, busy, noise>>
   /\ last' = [a |-> "PeerProbe"]
+
+\* datagrams that carry the SPIs of this IKE_SA but are NOT protected under the peer's keys (a late copy of the cleartext IKE_SA_INIT response, forged headers,
+\* a damaged copy of the peer's last message): they prove nothing about the peer - no deadline moves, in particular not the liveness timer
+Noise ==
+  /\ noise < MaxNoise /\ kern /\ st \in {"WAITING", "ESTABLISHED"} /\ kind \notin HalfOpenKinds
+  /\ noise' = noise + 1
+  /\ UNCHANGED <<st, kind, retx, sinceFirst, sinceSend, gaps, dpdIn, rekeyIn, deleteIn, kern, wire, crashed, sinceCrash, lost, swept, busy, probes>>
+  /\ last' = [a |-> "Noise"]
 
 Lose ==
   /\ wire > 0 /\ lost < MaxLoss /\ ~crashed
   /\ wire' = wire - 1 /\ lost' = lost + 1
-  /\ UNCHANGED <<st, kind, retx, sinceFirst, sinceSend, gaps, dpdIn, rekeyIn, deleteIn, kern, crashed, sinceCrash, swept, busy, probes>>
+  /\ UNCHANGED <<st, kind, retx, sinceFirst, sinceSend, gaps, dpdIn, rekeyIn, deleteIn, kern, crashed, sinceCrash, swept, busy, probes, noise>>
   /\ last' = [a |-> "Lose"]
 
 \* the peer crashes or becomes unreachable: nothing is answered any more
 Crash ==
   /\ ~crashed /\ crashed' = TRUE /\ wire' = 0 /\ sinceCrash' = 0
-  /\ UNCHANGED <<st, kind, retx, sinceFirst, sinceSend, gaps, dpdIn, rekeyIn, deleteIn, kern, lost, swept, busy, probes>>
+  /\ UNCHANGED <<st, kind, retx, sinceFirst, sinceSend, gaps, dpdIn, rekeyIn, deleteIn, kern, lost, swept, busy, probes, noise>>
   /\ last' = [a |-> "Crash"]
 
-Next == Sweep \/ (\E dt \in Ticks : Tick(dt)) \/ Answer \/ AnswerBusy \/ PeerProbe \/ Lose \/ Crash
+Next == Sweep \/ (\E dt \in Ticks : Tick(dt)) \/ Answer \/ AnswerBusy \/ PeerProbe \/ Noise \/ Lose \/ Crash
 Spec == Init /\ [][Next]_vars
 
 -----------------------------------------------------------------------------------------------------
@@ -137,9 +146,9 @@ Deleted == st = "DELETED" => ~kern
 HardLimitFixed == [][st' # "DELETED" => deleteIn' <= deleteIn]_vars
 
 \* ------------------------------------------------------------------------------------------ edge dump (see MC.tla)
-View == <<st, kind, retx, sinceFirst, sinceSend, gaps, dpdIn, rekeyIn, deleteIn, kern, wire, crashed, sinceCrash, lost, swept, busy, probes>>
+View == <<st, kind, retx, sinceFirst, sinceSend, gaps, dpdIn, rekeyIn, deleteIn, kern, wire, crashed, sinceCrash, lost, swept, busy, probes, noise>>
 Proj == [st |-> st, kind |-> kind, retx |-> retx, retxIn |-> RetxIn, sinceFirst |-> sinceFirst, gaps |-> gaps, dpdIn |-> dpdIn,
          rekeyIn |-> rekeyIn, deleteIn |-> deleteIn, kern |-> kern, wire |-> wire, crashed |-> crashed, sinceCrash |-> sinceCrash,
-         lost |-> lost, swept |-> swept, sinceSend |-> sinceSend, busy |-> busy, probes |-> probes]
+         lost |-> lost, swept |-> swept, sinceSend |-> sinceSend, busy |-> busy, probes |-> probes, noise |-> noise]
 EdgeDump == PrintT(<<"EDGE", ToJson([ff |-> Proj, a |-> last', dd |-> 0, t |-> Proj'])>>)
 =======================================================================================
